@@ -33,8 +33,11 @@ with one — every text containing a paragraph break splits this way, right afte
   characters of `P` and `D` to the lints of one rule / of a group of rules.
 Assumptions left: the url / e-mail / hostname lexers are a parameter (`ExtOK`, `ExtLocal`, `ExtNoNl`:
 in bounds, local to each side, no newline inside a token — all monitored; `ExtLocal` fails for the
-recorded finding) and rule locality `XLocal`, which is not proved for any real rule: it is what the
-oracle of `harness/src/c12.rs` tests on the real rule set on every run.
+recorded finding) and rule locality `XLocal`. In THIS file `XLocal` is a hypothesis; it is proved for
+the modelled rules downstream (`Props/C12b.lean` eleven rules, `C12c` generic constructions, `C12d` the
+28 pattern rules, `C12e` thirteen hand-written rules) and tested by the oracle of `harness/src/c12.rs`
+on the real rule set on every run. For the MODELLED url / e-mail / hostname lexers the three table
+hypotheses reduce to "`D` contains no `@`" (`C12b.paragraphPair_atFree`, w22 audit).
 -/
 namespace Harper.C12
 open Harper Harper.Chunks
@@ -79,6 +82,67 @@ example : ClsOK asciiCls := ⟨by decide, by decide, by
   · intro hc; subst hc; exact absurd h.1 (by decide)⟩
 example : BoundaryOK ['a', '.', '\n', '\n'] ['b'] := by decide
 example : ExtLocal (fun _ => none) (fun _ => none) (fun _ => none) 4 := ⟨fun _ _ => rfl, fun _ => rfl⟩
+
+/-! ### non-vacuity: the theorems above applied, every hypothesis together -/
+
+/-- the ASCII class table obeys the three laws (named, so that the witnesses below can apply the theorems) -/
+theorem asciiCls_clsOK : ClsOK asciiCls := ⟨by decide, by decide, by
+  intro c h
+  simp only [asciiCls, isAsciiDigit, Bool.and_eq_true, decide_eq_true_eq] at h
+  refine ⟨?_, ?_, ?_⟩
+  · simp only [isAsciiAlpha, Bool.or_eq_false_iff, Bool.and_eq_false_imp, decide_eq_true_eq, decide_eq_false_iff_not]
+    have h1 := h.1; have h2 := h.2
+    constructor <;> intro h3 <;> intro h4
+    · exact absurd (Char.le_trans h3 h2) (by decide)
+    · exact absurd (Char.le_trans h3 h2) (by decide)
+  · intro hc; subst hc; exact absurd h.1 (by decide)
+  · intro hc; subst hc; exact absurd h.1 (by decide)⟩
+
+/-- an `Ext` table that is not empty: the e-mail address `a@b` at the start of `D = a@b c` -/
+theorem emailAt_ok (p len : Nat) (h : p + 3 ≤ len) : ExtOK (fun pos => if pos = p then some (.email, 3) else none) len := by
+  intro pos k n hk
+  dsimp only at hk
+  split at hk
+  · cases hk; omega
+  · cases hk
+
+theorem emailAt_local (n : Nat) :
+    ExtLocal (fun _ => none) (fun pos => if pos = 0 then some (.email, 3) else none)
+      (fun pos => if pos = n then some (.email, 3) else none) n := by
+  refine ⟨fun pos hp => ?_, fun i => ?_⟩
+  · have : pos ≠ n := by omega
+    simp [this]
+  · by_cases hi : i = 0
+    · subst hi; simp
+    · have : n + i ≠ n := by omega
+      simp [hi]
+
+/-- non-vacuity of `lexToken_local`: position 0 of `ab` + newline + `cd` -/
+example : lexToken asciiCls (fun _ => none) 0 (['a', 'b'] ++ '\n' :: ['c', 'd']) =
+    lexToken asciiCls (fun _ => none) 0 (['a', 'b'] ++ ['\n']) :=
+  lexToken_local asciiCls asciiCls_clsOK _ _ 0 rfl ['a', 'b'] ['c', 'd'] (by decide)
+
+example : lexToken asciiCls (fun _ => none) 0 (['a', 'b'] ++ '\n' :: ['c', 'd']) = some (.word, 2) := by decide
+
+/-- non-vacuity of `lexNumber_local`: `5.` before the newline, a digit after it -/
+example : lexNumber asciiCls (['5', '.'] ++ '\n' :: ['5']) = lexNumber asciiCls (['5', '.'] ++ ['\n']) :=
+  lexNumber_local asciiCls asciiCls_clsOK ['5', '.'] ['5']
+
+example : lexNumber asciiCls (['5', '.'] ++ '\n' :: ['5']) = some (.number 10 none, 1) := by decide
+
+/-- non-vacuity of `lex_append`: all six hypotheses together, `a.¶¶` + `a@b c` with an e-mail token in `D` -/
+example : ∃ tp td, parsePlain asciiCls (fun _ => none) ['a', '.', '\n', '\n'] = .ok tp ∧
+    parsePlain asciiCls (fun pos => if pos = 0 then some (.email, 3) else none) ['a', '@', 'b', ' ', 'c'] = .ok td ∧
+    parsePlain asciiCls (fun pos => if pos = 4 then some (.email, 3) else none)
+      (['a', '.', '\n', '\n'] ++ ['a', '@', 'b', ' ', 'c']) = .ok (tp ++ shiftToks 4 td) :=
+  lex_append asciiCls asciiCls_clsOK ['a', '.', '\n', '\n'] ['a', '@', 'b', ' ', 'c'] (by decide) _ _ _
+    (emailAt_local 4) (fun _ _ _ h => by cases h) (emailAt_ok 0 5 (by decide))
+
+/-- … and the tokens it speaks about -/
+example : (parsePlain asciiCls (fun pos => if pos = 4 then some (.email, 3) else none)
+      (['a', '.', '\n', '\n'] ++ ['a', '@', 'b', ' ', 'c'])).toOption =
+    some [⟨⟨0, 1⟩, .word⟩, ⟨⟨1, 2⟩, .punct .Period⟩, ⟨⟨2, 4⟩, .newline 2⟩, ⟨⟨4, 7⟩, .email⟩, ⟨⟨7, 8⟩, .space 1⟩,
+      ⟨⟨8, 9⟩, .word⟩] := by decide
 
 /-- `D` must not start with a newline: the newline runs merge (`nl2` + `nl1` ≠ `nl3`) -/
 example : (parsePlain asciiCls (fun _ => none) (['a', '\n', '\n'] ++ ['\n', 'b'])).toOption ≠
@@ -202,6 +266,80 @@ example : (document asciiCls (fun _ => none) (['a', '.', ' ', '\n', '\n'] ++ [' 
     (do let tp ← (document asciiCls (fun _ => none) ['a', '.', ' ', '\n', '\n']).toOption
         let td ← (document asciiCls (fun _ => none) [' ', '"', 'b', '"']).toOption
         pure (tp ++ shiftDoc 5 tp.length td)) := by decide
+
+/-! ### non-vacuity: each theorem of this section applied, every hypothesis together -/
+
+/-- non-vacuity of `document_append_tokens`: `a.¶¶` + `a@b c`, every hypothesis together -/
+example : ∃ A0 pb td, pb.kind = .paragraphBreak ∧
+    document asciiCls (fun _ => none) ['a', '.', '\n', '\n'] = .ok (A0 ++ [pb]) ∧
+    document asciiCls (fun pos => if pos = 0 then some (.email, 3) else none) ['a', '@', 'b', ' ', 'c'] = .ok td ∧
+    DocAppend' asciiCls (fun pos => if pos = 4 then some (.email, 3) else none)
+      (['a', '.', '\n', '\n'] ++ ['a', '@', 'b', ' ', 'c']) (A0 ++ [pb]) td 4 ∧
+    (∀ t ∈ A0 ++ [pb], t.span.stop ≤ 4) :=
+  document_append_tokens asciiCls asciiCls_clsOK ['a', '.', '\n', '\n'] ['a', '@', 'b', ' ', 'c'] (by decide) _ _ _
+    (emailAt_local 4) (fun _ _ _ h => by cases h) (emailAt_ok 0 5 (by decide))
+    [⟨⟨0, 1⟩, .word⟩, ⟨⟨1, 2⟩, .punct .Period⟩] ⟨⟨2, 4⟩, .newline 2⟩ 2
+    [⟨⟨0, 3⟩, .email⟩, ⟨⟨3, 4⟩, .space 1⟩, ⟨⟨4, 5⟩, .word⟩] rfl rfl rfl (by decide) (by unfold NoQuotes; decide)
+
+/-- non-vacuity of `parsePlain_ends_break`: `a b.` + three newlines -/
+example : ∃ X, [(⟨⟨0, 1⟩, .word⟩ : Tok), ⟨⟨1, 2⟩, .space 1⟩, ⟨⟨2, 3⟩, .word⟩, ⟨⟨3, 4⟩, .punct .Period⟩, ⟨⟨4, 7⟩, .newline 3⟩] =
+    X ++ [⟨⟨4, 4 + 3⟩, .newline 3⟩] :=
+  parsePlain_ends_break asciiCls asciiCls_clsOK (fun _ => none) ['a', ' ', 'b', '.'] 3 (by decide) (by decide)
+    (fun _ _ _ h => by cases h) (fun _ _ _ h => by cases h) _ rfl
+
+/-- non-vacuity of `parsePlain_noQuotes` -/
+example : NoQuotes [(⟨⟨0, 1⟩, .word⟩ : Tok), ⟨⟨1, 2⟩, .space 1⟩, ⟨⟨2, 3⟩, .word⟩, ⟨⟨3, 4⟩, .punct .Period⟩] :=
+  parsePlain_noQuotes asciiCls (fun _ => none) ['a', ' ', 'b', '.'] (by decide) _ rfl
+
+/-- … and the hypothesis is needed: a quotation mark lexes to a quote token -/
+example : ¬ NoQuoteChars ['"', 'a'] ∧
+    (parsePlain asciiCls (fun _ => none) ['"', 'a']).toOption = some [⟨⟨0, 1⟩, .quote none⟩, ⟨⟨1, 2⟩, .word⟩] := by decide
+
+/-- non-vacuity of `token_has_no_newline`: the word `ab` before a newline; the newline run itself -/
+example : NoNl (['a', 'b', '\n', 'c'].take 2) ∨ AllNl (['a', 'b', '\n', 'c'].take 2) :=
+  token_has_no_newline asciiCls asciiCls_clsOK (fun _ => none) 0 ['a', 'b', '\n', 'c'] (fun _ _ h => by cases h) .word 2 (by decide)
+
+example : NoNl (['\n', '\n', 'c'].take 2) ∨ AllNl (['\n', '\n', 'c'].take 2) :=
+  token_has_no_newline asciiCls asciiCls_clsOK (fun _ => none) 0 ['\n', '\n', 'c'] (fun _ _ h => by cases h) (.newline 2) 2 (by decide)
+
+/-- non-vacuity of `document_append`: every hypothesis together (`ab cd. ¶¶¶` + `a@b "c"`: three newlines, an
+e-mail token and a quoted word in `D`), the theorem applied -/
+example : ∃ A0 pb td, pb.kind = .paragraphBreak ∧
+    document asciiCls (fun _ => none) (['a', 'b', ' ', 'c', 'd', '.', ' '] ++ List.replicate 3 '\n') = .ok (A0 ++ [pb]) ∧
+    document asciiCls (fun pos => if pos = 0 then some (.email, 3) else none) ['a', '@', 'b', ' ', '"', 'c', '"'] = .ok td ∧
+    DocAppend' asciiCls (fun pos => if pos = 10 then some (.email, 3) else none)
+      ((['a', 'b', ' ', 'c', 'd', '.', ' '] ++ List.replicate 3 '\n') ++ ['a', '@', 'b', ' ', '"', 'c', '"']) (A0 ++ [pb]) td
+      (['a', 'b', ' ', 'c', 'd', '.', ' '] ++ List.replicate 3 '\n').length ∧
+    (∀ t ∈ A0 ++ [pb], t.span.stop ≤ (['a', 'b', ' ', 'c', 'd', '.', ' '] ++ List.replicate 3 '\n').length) :=
+  document_append asciiCls asciiCls_clsOK ['a', 'b', ' ', 'c', 'd', '.', ' '] ['a', '@', 'b', ' ', '"', 'c', '"'] 3 (by decide)
+    (by decide) (by decide) (by decide) _ _ _ (emailAt_local 10) (fun _ _ _ h => by cases h) (emailAt_ok 0 7 (by decide))
+    (fun _ _ _ h => by cases h)
+
+/-- … and the document it speaks about: the quotes of `D` are twins 8 ↔ 10 (alone: 2 ↔ 4, moved by the 6 tokens of `P`) -/
+example : (document asciiCls (fun pos => if pos = 10 then some (.email, 3) else none)
+      ((['a', 'b', ' ', 'c', 'd', '.', ' '] ++ List.replicate 3 '\n') ++ ['a', '@', 'b', ' ', '"', 'c', '"'])).toOption =
+    some [⟨⟨0, 2⟩, .word⟩, ⟨⟨2, 3⟩, .space 1⟩, ⟨⟨3, 5⟩, .word⟩, ⟨⟨5, 6⟩, .punct .Period⟩, ⟨⟨6, 7⟩, .space 1⟩,
+      ⟨⟨7, 10⟩, .paragraphBreak⟩, ⟨⟨10, 13⟩, .email⟩, ⟨⟨13, 14⟩, .space 1⟩, ⟨⟨14, 15⟩, .quote (some 10)⟩, ⟨⟨15, 16⟩, .word⟩,
+      ⟨⟨16, 17⟩, .quote (some 8)⟩] := by decide
+
+/-- `k ≥ 2` is needed: one newline does not end the paragraph — the document of `a` + newline ends in a `Newline(1)`
+token, not in a `ParagraphBreak`, and `a`, newline, `b` is ONE paragraph -/
+example : (document asciiCls (fun _ => none) (['a'] ++ List.replicate 1 '\n')).toOption =
+      some [⟨⟨0, 1⟩, .word⟩, ⟨⟨1, 2⟩, .newline 1⟩] ∧
+    (document asciiCls (fun _ => none) ((['a'] ++ List.replicate 1 '\n') ++ ['b'])).toOption =
+      some [⟨⟨0, 1⟩, .word⟩, ⟨⟨1, 2⟩, .newline 1⟩, ⟨⟨2, 3⟩, .word⟩] ∧
+    iterParagraphs [(⟨⟨0, 1⟩, .word⟩ : Tok), ⟨⟨1, 2⟩, .newline 1⟩, ⟨⟨2, 3⟩, .word⟩] =
+      [[⟨⟨0, 1⟩, .word⟩, ⟨⟨1, 2⟩, .newline 1⟩, ⟨⟨2, 3⟩, .word⟩]] := by decide
+
+/-- non-vacuity of `condenseSpaces_translation`, `latin_stops_at_break`, `condenseSpaces_barrier` -/
+example : latinPat ['e', 't', 'c', '.', '\n', '\n', 'a']
+      ([⟨⟨0, 3⟩, .word⟩, ⟨⟨3, 4⟩, .punct .Period⟩] ++ ⟨⟨4, 6⟩, .paragraphBreak⟩ :: [⟨⟨6, 7⟩, .word⟩]) =
+    latinPat ['e', 't', 'c', '.', '\n', '\n', 'a'] [⟨⟨0, 3⟩, .word⟩, ⟨⟨3, 4⟩, .punct .Period⟩] :=
+  latin_stops_at_break _ ⟨⟨4, 6⟩, .paragraphBreak⟩ rfl [⟨⟨6, 7⟩, .word⟩] (by unfold InB; decide) _ (by unfold InB; decide)
+
+example : condenseSpaces ([⟨⟨0, 1⟩, .space 1⟩, ⟨⟨1, 2⟩, .space 2⟩] ++ ⟨⟨2, 3⟩, .word⟩ :: [⟨⟨3, 4⟩, .space 1⟩, ⟨⟨4, 5⟩, .space 2⟩]) =
+    condenseSpaces [⟨⟨0, 1⟩, .space 1⟩, ⟨⟨1, 2⟩, .space 2⟩] ++ ⟨⟨2, 3⟩, .word⟩ :: condenseSpaces [⟨⟨3, 4⟩, .space 1⟩, ⟨⟨4, 5⟩, .space 2⟩] :=
+  condenseSpaces_barrier _ _ ⟨⟨2, 3⟩, .word⟩ rfl
 
 /-! ## pieces -/
 
@@ -362,5 +500,191 @@ example : ¬ XLocal (fun _ piece => piece.filterMap fun t => if t.span.start = 0
   intro h
   have := h.right ['a'] ['b'] [⟨⟨0, 1⟩, .word⟩] 0
   simp [shiftDoc, shiftLints, shiftTwin] at this
+
+/-! ## non-vacuity of the theorems on pieces and rules, and the `Consequently` clause -/
+
+/-- non-vacuity of `iterParagraphs_append` / `iterSentences_append` / `iterChunks_append` (and of
+`isSentenceTerminator_of_break`, `isChunkTerminator_of_break`): `a, b.¶¶` followed by `c. d` -/
+example : iterChunks (([⟨⟨0, 1⟩, .word⟩, ⟨⟨1, 2⟩, .punct .Comma⟩, ⟨⟨2, 3⟩, .space 1⟩, ⟨⟨3, 4⟩, .word⟩, ⟨⟨4, 5⟩, .punct .Period⟩] ++
+        [⟨⟨5, 7⟩, .paragraphBreak⟩]) ++ [⟨⟨7, 8⟩, .word⟩, ⟨⟨8, 9⟩, .punct .Period⟩, ⟨⟨9, 10⟩, .space 1⟩, ⟨⟨10, 11⟩, .word⟩]) =
+    iterChunks ([⟨⟨0, 1⟩, .word⟩, ⟨⟨1, 2⟩, .punct .Comma⟩, ⟨⟨2, 3⟩, .space 1⟩, ⟨⟨3, 4⟩, .word⟩, ⟨⟨4, 5⟩, .punct .Period⟩] ++
+        [⟨⟨5, 7⟩, .paragraphBreak⟩]) ++
+      (if [(⟨⟨7, 8⟩, .word⟩ : Tok), ⟨⟨8, 9⟩, .punct .Period⟩, ⟨⟨9, 10⟩, .space 1⟩, ⟨⟨10, 11⟩, .word⟩].isEmpty then []
+        else iterChunks [⟨⟨7, 8⟩, .word⟩, ⟨⟨8, 9⟩, .punct .Period⟩, ⟨⟨9, 10⟩, .space 1⟩, ⟨⟨10, 11⟩, .word⟩]) :=
+  iterChunks_append _ ⟨⟨5, 7⟩, .paragraphBreak⟩ rfl _
+
+example : (iterParagraphs (([⟨⟨0, 1⟩, .word⟩, ⟨⟨1, 2⟩, .punct .Comma⟩, ⟨⟨2, 3⟩, .space 1⟩, ⟨⟨3, 4⟩, .word⟩, ⟨⟨4, 5⟩, .punct .Period⟩] ++
+        [⟨⟨5, 7⟩, .paragraphBreak⟩]) ++ [⟨⟨7, 8⟩, .word⟩, ⟨⟨8, 9⟩, .punct .Period⟩, ⟨⟨9, 10⟩, .space 1⟩, ⟨⟨10, 11⟩, .word⟩])).length = 2 ∧
+    (iterSentences (([⟨⟨0, 1⟩, .word⟩, ⟨⟨1, 2⟩, .punct .Comma⟩, ⟨⟨2, 3⟩, .space 1⟩, ⟨⟨3, 4⟩, .word⟩, ⟨⟨4, 5⟩, .punct .Period⟩] ++
+        [⟨⟨5, 7⟩, .paragraphBreak⟩]) ++ [⟨⟨7, 8⟩, .word⟩, ⟨⟨8, 9⟩, .punct .Period⟩, ⟨⟨9, 10⟩, .space 1⟩, ⟨⟨10, 11⟩, .word⟩])).length = 4 ∧
+    (iterChunks (([⟨⟨0, 1⟩, .word⟩, ⟨⟨1, 2⟩, .punct .Comma⟩, ⟨⟨2, 3⟩, .space 1⟩, ⟨⟨3, 4⟩, .word⟩, ⟨⟨4, 5⟩, .punct .Period⟩] ++
+        [⟨⟨5, 7⟩, .paragraphBreak⟩]) ++ [⟨⟨7, 8⟩, .word⟩, ⟨⟨8, 9⟩, .punct .Period⟩, ⟨⟨9, 10⟩, .space 1⟩, ⟨⟨10, 11⟩, .word⟩])).length = 5 := by
+  decide
+
+/-- `shortWords` is `XLocal` (the `example` above, named so that the witnesses below can apply the theorems) -/
+theorem shortWords_xlocal : XLocal shortWords where
+  nil := fun _ => rfl
+  left := fun _ _ _ _ => rfl
+  right := by
+    intro P D piece j
+    induction piece with
+    | nil => rfl
+    | cons t ts ih =>
+      have hw : (shiftTwin j t.kind).isWord = t.kind.isWord := by
+        cases t.kind <;> try rfl
+        rename_i tw; cases tw <;> rfl
+      have hl : (⟨t.span.start + P.length, t.span.stop + P.length⟩ : Span).len = t.span.len := by
+        simp only [Span.len]; omega
+      simp only [shortWords, shiftDoc, List.map_cons, List.filter_cons, hw, hl] at ih ⊢
+      split
+      · simp only [List.map_cons, shiftLints, List.cons.injEq, true_and]
+        exact ih
+      · exact ih
+
+/-- non-vacuity of `lint_append` / `lint_append_sentences` / `lint_append_chunks` / `lintGroup_append`: all four
+hypotheses together on the documents of `a bc.¶¶` and `de f`, a rule that reports in BOTH paragraphs -/
+example : lintBy iterParagraphs shortWords (['a', ' ', 'b', 'c', '.', '\n', '\n'] ++ ['d', 'e', ' ', 'f'])
+      (([⟨⟨0, 1⟩, .word⟩, ⟨⟨1, 2⟩, .space 1⟩, ⟨⟨2, 4⟩, .word⟩, ⟨⟨4, 5⟩, .punct .Period⟩] ++ [⟨⟨5, 7⟩, .paragraphBreak⟩]) ++
+        shiftDoc 7 5 [⟨⟨0, 2⟩, .word⟩, ⟨⟨2, 3⟩, .space 1⟩, ⟨⟨3, 4⟩, .word⟩]) =
+    lintBy iterParagraphs shortWords ['a', ' ', 'b', 'c', '.', '\n', '\n']
+        ([⟨⟨0, 1⟩, .word⟩, ⟨⟨1, 2⟩, .space 1⟩, ⟨⟨2, 4⟩, .word⟩, ⟨⟨4, 5⟩, .punct .Period⟩] ++ [⟨⟨5, 7⟩, .paragraphBreak⟩]) ++
+      shiftLints 7 (lintBy iterParagraphs shortWords ['d', 'e', ' ', 'f'] [⟨⟨0, 2⟩, .word⟩, ⟨⟨2, 3⟩, .space 1⟩, ⟨⟨3, 4⟩, .word⟩]) :=
+  lint_append shortWords shortWords_xlocal ['a', ' ', 'b', 'c', '.', '\n', '\n'] ['d', 'e', ' ', 'f'] _ ⟨⟨5, 7⟩, .paragraphBreak⟩ rfl
+    [⟨⟨0, 2⟩, .word⟩, ⟨⟨2, 3⟩, .space 1⟩, ⟨⟨3, 4⟩, .word⟩] _ (by decide) rfl
+
+/-- … the lints it speaks about: `a` at 0..1 in the first paragraph, `f` at 10..11 in the second -/
+example : lintBy iterParagraphs shortWords (['a', ' ', 'b', 'c', '.', '\n', '\n'] ++ ['d', 'e', ' ', 'f'])
+      (([⟨⟨0, 1⟩, .word⟩, ⟨⟨1, 2⟩, .space 1⟩, ⟨⟨2, 4⟩, .word⟩, ⟨⟨4, 5⟩, .punct .Period⟩] ++ [⟨⟨5, 7⟩, .paragraphBreak⟩]) ++
+        shiftDoc 7 5 [⟨⟨0, 2⟩, .word⟩, ⟨⟨2, 3⟩, .space 1⟩, ⟨⟨3, 4⟩, .word⟩]) = [⟨⟨0, 1⟩, 0⟩, ⟨⟨10, 11⟩, 0⟩] := by decide
+
+example : (lintGroup iterParagraphs [shortWords, shortWords] (['a', ' ', 'b', 'c', '.', '\n', '\n'] ++ ['d', 'e', ' ', 'f'])
+      (([⟨⟨0, 1⟩, .word⟩, ⟨⟨1, 2⟩, .space 1⟩, ⟨⟨2, 4⟩, .word⟩, ⟨⟨4, 5⟩, .punct .Period⟩] ++ [⟨⟨5, 7⟩, .paragraphBreak⟩]) ++
+        shiftDoc 7 5 [⟨⟨0, 2⟩, .word⟩, ⟨⟨2, 3⟩, .space 1⟩, ⟨⟨3, 4⟩, .word⟩])).Perm
+    (lintGroup iterParagraphs [shortWords, shortWords] ['a', ' ', 'b', 'c', '.', '\n', '\n']
+        ([⟨⟨0, 1⟩, .word⟩, ⟨⟨1, 2⟩, .space 1⟩, ⟨⟨2, 4⟩, .word⟩, ⟨⟨4, 5⟩, .punct .Period⟩] ++ [⟨⟨5, 7⟩, .paragraphBreak⟩]) ++
+      shiftLints 7 (lintGroup iterParagraphs [shortWords, shortWords] ['d', 'e', ' ', 'f'] [⟨⟨0, 2⟩, .word⟩, ⟨⟨2, 3⟩, .space 1⟩, ⟨⟨3, 4⟩, .word⟩])) :=
+  lintGroup_append [shortWords, shortWords] (by intro r hr; simp at hr; subst hr; exact shortWords_xlocal)
+    ['a', ' ', 'b', 'c', '.', '\n', '\n'] ['d', 'e', ' ', 'f'] _ ⟨⟨5, 7⟩, .paragraphBreak⟩ rfl
+    [⟨⟨0, 2⟩, .word⟩, ⟨⟨2, 3⟩, .space 1⟩, ⟨⟨3, 4⟩, .word⟩] _ (by decide) rfl
+
+/-- the group's order really differs (why `lintGroup_append` is a permutation and not an equation): rule by rule
+on the whole is `P D P D`, separately it is `P P D D` -/
+example : lintGroup iterParagraphs [shortWords, shortWords] (['a', ' ', 'b', 'c', '.', '\n', '\n'] ++ ['d', 'e', ' ', 'f'])
+      (([⟨⟨0, 1⟩, .word⟩, ⟨⟨1, 2⟩, .space 1⟩, ⟨⟨2, 4⟩, .word⟩, ⟨⟨4, 5⟩, .punct .Period⟩] ++ [⟨⟨5, 7⟩, .paragraphBreak⟩]) ++
+        shiftDoc 7 5 [⟨⟨0, 2⟩, .word⟩, ⟨⟨2, 3⟩, .space 1⟩, ⟨⟨3, 4⟩, .word⟩]) =
+      [⟨⟨0, 1⟩, 0⟩, ⟨⟨10, 11⟩, 0⟩, ⟨⟨0, 1⟩, 0⟩, ⟨⟨10, 11⟩, 0⟩] := by decide
+
+/-- non-vacuity of `paragraphs_separately`: every hypothesis together, from the CHARACTERS `a bc.¶¶` and `de f`
+(real words in both, lints in both), the theorem applied -/
+example : ∃ lp ld, lintDoc asciiCls (fun _ => none) iterParagraphs shortWords (['a', ' ', 'b', 'c', '.'] ++ List.replicate 2 '\n') = .ok lp ∧
+    lintDoc asciiCls (fun _ => none) iterParagraphs shortWords ['d', 'e', ' ', 'f'] = .ok ld ∧
+    lintDoc asciiCls (fun _ => none) iterParagraphs shortWords ((['a', ' ', 'b', 'c', '.'] ++ List.replicate 2 '\n') ++ ['d', 'e', ' ', 'f']) =
+      .ok (lp ++ shiftLints (['a', ' ', 'b', 'c', '.'] ++ List.replicate 2 '\n').length ld) :=
+  paragraphs_separately asciiCls asciiCls_clsOK ['a', ' ', 'b', 'c', '.'] ['d', 'e', ' ', 'f'] 2 (by decide) (by decide) (by decide)
+    (by decide) _ _ _ ⟨fun _ _ => rfl, fun _ => rfl⟩ (fun _ _ _ h => by cases h) (fun _ _ _ h => by cases h)
+    (fun _ _ _ h => by cases h) shortWords shortWords_xlocal
+
+/-- … and the three lint lists it speaks about, computed: one lint in each paragraph -/
+example : (lintDoc asciiCls (fun _ => none) iterParagraphs shortWords (['a', ' ', 'b', 'c', '.'] ++ List.replicate 2 '\n')).toOption = some [⟨⟨0, 1⟩, 0⟩] ∧
+    (lintDoc asciiCls (fun _ => none) iterParagraphs shortWords ['d', 'e', ' ', 'f']).toOption = some [⟨⟨3, 4⟩, 0⟩] ∧
+    (lintDoc asciiCls (fun _ => none) iterParagraphs shortWords
+      ((['a', ' ', 'b', 'c', '.'] ++ List.replicate 2 '\n') ++ ['d', 'e', ' ', 'f'])).toOption = some [⟨⟨0, 1⟩, 0⟩, ⟨⟨10, 11⟩, 0⟩] := by decide
+
+/-- non-vacuity of `paragraphs_separately_group` on the same texts -/
+example : ∃ lp ld lpd, lintGroupDoc asciiCls (fun _ => none) iterParagraphs [shortWords, shortWords] (['a', ' ', 'b', 'c', '.'] ++ List.replicate 2 '\n') = .ok lp ∧
+    lintGroupDoc asciiCls (fun _ => none) iterParagraphs [shortWords, shortWords] ['d', 'e', ' ', 'f'] = .ok ld ∧
+    lintGroupDoc asciiCls (fun _ => none) iterParagraphs [shortWords, shortWords]
+      ((['a', ' ', 'b', 'c', '.'] ++ List.replicate 2 '\n') ++ ['d', 'e', ' ', 'f']) = .ok lpd ∧
+    lpd.Perm (lp ++ shiftLints (['a', ' ', 'b', 'c', '.'] ++ List.replicate 2 '\n').length ld) :=
+  paragraphs_separately_group asciiCls asciiCls_clsOK ['a', ' ', 'b', 'c', '.'] ['d', 'e', ' ', 'f'] 2 (by decide) (by decide) (by decide)
+    (by decide) _ _ _ ⟨fun _ _ => rfl, fun _ => rfl⟩ (fun _ _ _ h => by cases h) (fun _ _ _ h => by cases h)
+    (fun _ _ _ h => by cases h) _ (by intro r hr; simp at hr; subst hr; exact shortWords_xlocal)
+
+/-! ## "editing one paragraph never changes, moves or hides a lint in another paragraph" -/
+
+/-- **The second sentence of C12, for a paragraph-local rule.** Two texts with the same continuation `D` behind
+different first paragraphs `P`, `P'`: both report exactly the SAME lints `ld` for `D` (those of `D` checked alone),
+moved by `|P|` resp. `|P'|` — none changed, none hidden, none added, and moved only by the change of length. -/
+theorem edit_first_paragraph (cls : Cls) (hc : ClsOK cls) (P0 P0' D : List Char) (k k' : Nat) (hk : 2 ≤ k) (hk' : 2 ≤ k')
+    (hend : NoNlEnd P0) (hend' : NoNlEnd P0') (hD : D.head? ≠ some '\n')
+    (hq : NoQuoteChars (P0 ++ List.replicate k '\n')) (hq' : NoQuoteChars (P0' ++ List.replicate k' '\n'))
+    (extP extP' extD extPD extPD' : Ext)
+    (hloc : ExtLocal extP extD extPD (P0 ++ List.replicate k '\n').length)
+    (hloc' : ExtLocal extP' extD extPD' (P0' ++ List.replicate k' '\n').length)
+    (hokP : ExtOK extP (P0 ++ List.replicate k '\n').length) (hokP' : ExtOK extP' (P0' ++ List.replicate k' '\n').length)
+    (hokD : ExtOK extD D.length)
+    (hnl : ExtNoNl extP (P0 ++ List.replicate k '\n')) (hnl' : ExtNoNl extP' (P0' ++ List.replicate k' '\n'))
+    (r : Rule) (hr : XLocal r) :
+    ∃ lp lp' ld, lintDoc cls extD iterParagraphs r D = .ok ld ∧
+      lintDoc cls extP iterParagraphs r (P0 ++ List.replicate k '\n') = .ok lp ∧
+      lintDoc cls extP' iterParagraphs r (P0' ++ List.replicate k' '\n') = .ok lp' ∧
+      lintDoc cls extPD iterParagraphs r ((P0 ++ List.replicate k '\n') ++ D) =
+        .ok (lp ++ shiftLints (P0 ++ List.replicate k '\n').length ld) ∧
+      lintDoc cls extPD' iterParagraphs r ((P0' ++ List.replicate k' '\n') ++ D) =
+        .ok (lp' ++ shiftLints (P0' ++ List.replicate k' '\n').length ld) := by
+  obtain ⟨lp, ld, e1, e2, e3⟩ := paragraphs_separately cls hc P0 D k hk hend hD hq extP extD extPD hloc hokP hokD hnl r hr
+  obtain ⟨lp', ld', e1', e2', e3'⟩ :=
+    paragraphs_separately cls hc P0' D k' hk' hend' hD hq' extP' extD extPD' hloc' hokP' hokD hnl' r hr
+  rw [e2] at e2'
+  cases e2'
+  exact ⟨lp, lp', ld, e2, e1, e1', e3, e3'⟩
+
+/-- … and the other way round: changing the text AFTER the paragraph break changes no lint of the first
+paragraph, not even its place. -/
+theorem edit_later_text (cls : Cls) (hc : ClsOK cls) (P0 D D' : List Char) (k : Nat) (hk : 2 ≤ k)
+    (hend : NoNlEnd P0) (hD : D.head? ≠ some '\n') (hD' : D'.head? ≠ some '\n')
+    (hq : NoQuoteChars (P0 ++ List.replicate k '\n'))
+    (extP extD extD' extPD extPD' : Ext)
+    (hloc : ExtLocal extP extD extPD (P0 ++ List.replicate k '\n').length)
+    (hloc' : ExtLocal extP extD' extPD' (P0 ++ List.replicate k '\n').length)
+    (hokP : ExtOK extP (P0 ++ List.replicate k '\n').length) (hokD : ExtOK extD D.length) (hokD' : ExtOK extD' D'.length)
+    (hnl : ExtNoNl extP (P0 ++ List.replicate k '\n'))
+    (r : Rule) (hr : XLocal r) :
+    ∃ lp ld ld', lintDoc cls extP iterParagraphs r (P0 ++ List.replicate k '\n') = .ok lp ∧
+      lintDoc cls extD iterParagraphs r D = .ok ld ∧ lintDoc cls extD' iterParagraphs r D' = .ok ld' ∧
+      lintDoc cls extPD iterParagraphs r ((P0 ++ List.replicate k '\n') ++ D) =
+        .ok (lp ++ shiftLints (P0 ++ List.replicate k '\n').length ld) ∧
+      lintDoc cls extPD' iterParagraphs r ((P0 ++ List.replicate k '\n') ++ D') =
+        .ok (lp ++ shiftLints (P0 ++ List.replicate k '\n').length ld') := by
+  obtain ⟨lp, ld, e1, e2, e3⟩ := paragraphs_separately cls hc P0 D k hk hend hD hq extP extD extPD hloc hokP hokD hnl r hr
+  obtain ⟨lp', ld', e1', e2', e3'⟩ :=
+    paragraphs_separately cls hc P0 D' k hk hend hD' hq extP extD' extPD' hloc' hokP hokD' hnl r hr
+  rw [e1] at e1'
+  cases e1'
+  exact ⟨lp, ld, ld', e1, e2, e2', e3, e3'⟩
+
+/-- non-vacuity of `edit_first_paragraph`: `a bc.¶¶` edited to `x y z.¶¶¶`, the continuation `de f` unchanged —
+its lint `f` is reported at 10..11 before and at 13..14 after the edit (moved by the change of length, 3) -/
+example : (lintDoc asciiCls (fun _ => none) iterParagraphs shortWords
+      ((['a', ' ', 'b', 'c', '.'] ++ List.replicate 2 '\n') ++ ['d', 'e', ' ', 'f'])).toOption = some [⟨⟨0, 1⟩, 0⟩, ⟨⟨10, 11⟩, 0⟩] ∧
+    (lintDoc asciiCls (fun _ => none) iterParagraphs shortWords
+      ((['x', ' ', 'y', ' ', 'z', 'w', '.'] ++ List.replicate 3 '\n') ++ ['d', 'e', ' ', 'f'])).toOption =
+      some [⟨⟨0, 1⟩, 0⟩, ⟨⟨2, 3⟩, 0⟩, ⟨⟨13, 14⟩, 0⟩] := by decide
+
+example : ∃ lp lp' ld, lintDoc asciiCls (fun _ => none) iterParagraphs shortWords ['d', 'e', ' ', 'f'] = .ok ld ∧
+    lintDoc asciiCls (fun _ => none) iterParagraphs shortWords (['a', ' ', 'b', 'c', '.'] ++ List.replicate 2 '\n') = .ok lp ∧
+    lintDoc asciiCls (fun _ => none) iterParagraphs shortWords (['x', ' ', 'y', ' ', 'z', 'w', '.'] ++ List.replicate 3 '\n') = .ok lp' ∧
+    lintDoc asciiCls (fun _ => none) iterParagraphs shortWords ((['a', ' ', 'b', 'c', '.'] ++ List.replicate 2 '\n') ++ ['d', 'e', ' ', 'f']) =
+      .ok (lp ++ shiftLints (['a', ' ', 'b', 'c', '.'] ++ List.replicate 2 '\n').length ld) ∧
+    lintDoc asciiCls (fun _ => none) iterParagraphs shortWords ((['x', ' ', 'y', ' ', 'z', 'w', '.'] ++ List.replicate 3 '\n') ++ ['d', 'e', ' ', 'f']) =
+      .ok (lp' ++ shiftLints (['x', ' ', 'y', ' ', 'z', 'w', '.'] ++ List.replicate 3 '\n').length ld) :=
+  edit_first_paragraph asciiCls asciiCls_clsOK ['a', ' ', 'b', 'c', '.'] ['x', ' ', 'y', ' ', 'z', 'w', '.'] ['d', 'e', ' ', 'f'] 2 3
+    (by decide) (by decide) (by decide) (by decide) (by decide) (by decide) (by decide)
+    (fun _ => none) (fun _ => none) (fun _ => none) (fun _ => none) (fun _ => none)
+    ⟨fun _ _ => rfl, fun _ => rfl⟩ ⟨fun _ _ => rfl, fun _ => rfl⟩ (fun _ _ _ h => by cases h) (fun _ _ _ h => by cases h)
+    (fun _ _ _ h => by cases h) (fun _ _ _ h => by cases h) (fun _ _ _ h => by cases h) shortWords shortWords_xlocal
+
+/-- non-vacuity of `edit_later_text`: `de f` edited to `g`: the first paragraph's lint stays at 0..1 -/
+example : ∃ lp ld ld', lintDoc asciiCls (fun _ => none) iterParagraphs shortWords (['a', ' ', 'b', 'c', '.'] ++ List.replicate 2 '\n') = .ok lp ∧
+    lintDoc asciiCls (fun _ => none) iterParagraphs shortWords ['d', 'e', ' ', 'f'] = .ok ld ∧
+    lintDoc asciiCls (fun _ => none) iterParagraphs shortWords ['g'] = .ok ld' ∧
+    lintDoc asciiCls (fun _ => none) iterParagraphs shortWords ((['a', ' ', 'b', 'c', '.'] ++ List.replicate 2 '\n') ++ ['d', 'e', ' ', 'f']) =
+      .ok (lp ++ shiftLints (['a', ' ', 'b', 'c', '.'] ++ List.replicate 2 '\n').length ld) ∧
+    lintDoc asciiCls (fun _ => none) iterParagraphs shortWords ((['a', ' ', 'b', 'c', '.'] ++ List.replicate 2 '\n') ++ ['g']) =
+      .ok (lp ++ shiftLints (['a', ' ', 'b', 'c', '.'] ++ List.replicate 2 '\n').length ld') :=
+  edit_later_text asciiCls asciiCls_clsOK ['a', ' ', 'b', 'c', '.'] ['d', 'e', ' ', 'f'] ['g'] 2
+    (by decide) (by decide) (by decide) (by decide) (by decide) (fun _ => none) (fun _ => none) (fun _ => none) (fun _ => none) (fun _ => none)
+    ⟨fun _ _ => rfl, fun _ => rfl⟩ ⟨fun _ _ => rfl, fun _ => rfl⟩ (fun _ _ _ h => by cases h) (fun _ _ _ h => by cases h)
+    (fun _ _ _ h => by cases h) (fun _ _ _ h => by cases h) shortWords shortWords_xlocal
 
 end Harper.C12
